@@ -200,7 +200,8 @@ CHECKS = {
         "level": "exploration",
         "parts": [{"gen": "C09", "quick": 640, "thorough": 12800, "quick_deadline_s": 420, "thorough_deadline_s": 3000},
                   {"gen": "C09udp", "quick": 1200, "thorough": 24000},
-                  {"engine": "shuttle", "quick": 20000, "thorough": 1000000}],
+                  {"engine": "shuttle", "quick": 20000, "thorough": 1000000},
+                  {"engine": "miri", "quick": 6, "thorough": 96}],
         "rule": "two engines. Task level (simnet): a batch of 2-8 (10%: 9-24, thorough -64) concurrent TCP flows through the real client and server over a cycling (protocol, cipher, tcp/tls/ws/wss) cell with drawn network knobs is run once all together "
                 "and once per flow alone (same seed, same slot); each flow's observable result (handshake, number of dials to its target, bytes and integrity each way, how each end saw it finish) must be identical. "
                 "Thread level (shuttle, hook H6): 2-4 threads under shuttle's seeded random and PCT schedulers each decode a reference-built Shadowsocks-2022 request with the real server-side decoder against one shared Context (salt cache): "
